@@ -165,9 +165,11 @@ Proof.
 Qed.
 
 (* ------------------------------------------------------------------ the table the check prints
-   one row per n:  n, then for the landmark_ratio bound and for the perplexity bound the three points
-   (next_down f, f, next_up f), each as  mantissa (signed), exponent, verdict of the documented binary64 check (1/0),
-   and (landmark_ratio only) the binary64 landmark count static_cast<IndexType>(n * point) *)
+   five numbers per n (Coq prints about two thousand numbers a second):
+     mantissa, exponent of f_ratio = 3.0 / n;  mantissa, exponent of f_perp = (n - 1) / 3.0;  code
+   code = r0 + 2 r1 + 4 r2 + 8 p0 + 16 p1 + 32 p2 + 64 (c0 + 8 c1 + 64 c2)   where, for the three points
+   (next_down f, f, next_up f) of each bound, r_i / p_i = verdict of the documented binary64 check on landmark_ratio /
+   perplexity and c_i = min(7, static_cast<IndexType>(n * point)), the binary64 landmark count *)
 Definition sf_ints (f : float) : list Z :=
   match Prim2SF f with
   | S754_zero _ => [0; 0]
@@ -179,13 +181,12 @@ Definition b2z (b : bool) : Z := if b then 1 else 0.
 Definition float_row (n : Z) : list Z :=
   let f := fbound ratio_bound n in
   let g := fbound perp_bound n in
-  let rp := fun v => sf_ints v ++ [b2z (closed_range_f f f_one v); count_of n v] in
-  let pp := fun v => sf_ints v ++ [b2z (closed_range_f f_zero g v)] in
-  n :: rp (PrimFloat.next_down f) ++ rp f ++ rp (PrimFloat.next_up f)
-    ++ pp (PrimFloat.next_down g) ++ pp g ++ pp (PrimFloat.next_up g).
+  let r := fun v => b2z (closed_range_f f f_one v) in
+  let p := fun v => b2z (closed_range_f f_zero g v) in
+  let c := fun v => Z.min 7 (count_of n v) in
+  let fd := PrimFloat.next_down f in let fu := PrimFloat.next_up f in
+  let gd := PrimFloat.next_down g in let gu := PrimFloat.next_up g in
+  sf_ints f ++ sf_ints g ++
+  [r fd + 2 * r f + 4 * r fu + 8 * p gd + 16 * p g + 32 * p gu + 64 * (c fd + 8 * c f + 64 * c fu)].
 
-(* a row packed into ONE number (Coq prints about two thousand numbers a second, whatever their size): base 2^64 digits,
-   each value offset by 2^62, under a leading 1 *)
-Definition pack_row (l : list Z) : Z := fold_left (fun acc v => acc * 2 ^ 64 + (v + 2 ^ 62)) l 1.
-
-Definition float_table (start : Z) (len : nat) : list Z := map (fun n => pack_row (float_row n)) (zrange start len).
+Definition float_table (start : Z) (len : nat) : list Z := flat_map float_row (zrange start len).
